@@ -42,6 +42,9 @@ func genC13(t *rapid.T) c13Case {
 		Salt:    rapid.OneOf(rapid.SliceOfN(rapid.Byte(), 0, 40), rapid.SliceOfN(rapid.Byte(), 41, 300)).Draw(t, "salt"),
 		SaltNil: rapid.IntRange(0, 4).Draw(t, "saltnil") == 0,
 	}
+	if rapid.IntRange(0, 24).Draw(t, "nokey") == 0 {
+		a.Key = -1
+	}
 	b := a
 	b.Salt = append(vstat.Bytes{}, a.Salt...)
 	switch rapid.IntRange(0, 6).Draw(t, "vary") {
@@ -88,13 +91,38 @@ func c13Derive(in c13In, n int) ([]byte, error, *vstat.Violation) {
 	out := make([]byte, n)
 	var err error
 	v := vstat.Guard("DeriveKey", func() *vstat.Violation {
-		err = peer.DeriveKey(in.Ctx, in.salt(), gen.Key(in.Key), out)
+		var k crypto.PrivKey // Key < 0: no key at all (the nil interface value)
+		if in.Key >= 0 {
+			k = gen.Key(in.Key)
+		}
+		err = peer.DeriveKey(in.Ctx, in.salt(), k, out)
 		return nil
 	})
 	return out, err, v
 }
 
 func checkC13(c c13Case) (o vstat.Outcome) {
+	if c.A.Key < 0 {
+		// no private key: an error from both entry points, for every context, salt and length
+		o.NonTrivial = true
+		o.Classes = append(o.Classes, "nil-private-key")
+		_, err, v := c13Derive(c.A, c.OutLen)
+		if v != nil {
+			o.V = v
+			return
+		}
+		if err == nil {
+			o.V = vstat.Viol("nil-key-derives", "DeriveKey without a private key returned no error")
+			return
+		}
+		o.V = vstat.Guard("DeriveEd25519Key", func() *vstat.Violation {
+			if k, _, err := peer.DeriveEd25519Key(c.A.Ctx, c.A.salt(), nil); err == nil || k != nil {
+				return vstat.Viol("nil-key-derives", "DeriveEd25519Key without a private key returned (%v, %v)", k, err)
+			}
+			return nil
+		})
+		return
+	}
 	sameIn := c.A.Key == c.B.Key && c.A.Ctx == c.B.Ctx && bytes.Equal(c.A.salt(), c.B.salt())
 	o.NonTrivial = !sameIn || c.A.Ctx == "" || len(c.A.salt()) == 0
 	if c.A.Ctx == "" || c.B.Ctx == "" {
